@@ -159,7 +159,7 @@ def run(tier, seed):
     t0 = time.time()
     specs = specgen.f_st(tier, seed)
     if tier == "quick":
-        keep = [s for s in specs if "/slip" in s["name"] or "/space=/" in s["name"] or "conv-part" in s["name"]]
+        keep = [s for s in specs if "/slip" in s["name"] or "/space=/" in s["name"] or "conv-part" in s["name"] or "/cascade/" in s["name"]]
         rest = [s for s in specs if s not in keep]
         specs = keep + rest[seed % 2::2]
     res = runner.pmap(work, specs)
